@@ -349,3 +349,104 @@ harness!(c03_rt_received, |s| {
     assert!(y.section_number == r.section_number && y.section_offset == r.section_offset, "[C03] received did not round-trip");
     vcover!(s, true, "reached");
 });
+
+// ---- C05: every way of writing a descriptor is read as the same descriptor ----
+/// what a derive-generated field/variant visitor sees for a descriptor
+#[derive(PartialEq, Clone, Copy)]
+pub enum Descr {
+    Name(usize, [u8; 3]),
+    Code(u64),
+    Other,
+}
+pub struct DescrVisitor;
+impl<'de> Visitor<'de> for DescrVisitor {
+    type Value = Descr;
+    fn expecting(&self, f: &mut fmt::Formatter) -> fmt::Result {
+        f.write_str("descriptor")
+    }
+    fn visit_str<E: de::Error>(self, v: &str) -> Result<Descr, E> {
+        let b = v.as_bytes();
+        let mut a = [0u8; 3];
+        let mut i = 0;
+        while i < 3 && i < b.len() {
+            a[i] = b[i];
+            i += 1;
+        }
+        Ok(Descr::Name(b.len(), a))
+    }
+    fn visit_string<E: de::Error>(self, v: String) -> Result<Descr, E> {
+        let r = self.visit_str(&v);
+        std::mem::forget(v);
+        r
+    }
+    fn visit_u64<E: de::Error>(self, v: u64) -> Result<Descr, E> {
+        Ok(Descr::Code(v))
+    }
+    fn visit_u8<E: de::Error>(self, _v: u8) -> Result<Descr, E> {
+        Ok(Descr::Other)
+    }
+    fn visit_bytes<E: de::Error>(self, _v: &[u8]) -> Result<Descr, E> {
+        Ok(Descr::Other)
+    }
+    fn visit_u32<E: de::Error>(self, _v: u32) -> Result<Descr, E> {
+        Ok(Descr::Other)
+    }
+    fn visit_newtype_struct<D: de::Deserializer<'de>>(self, d: D) -> Result<Descr, D::Error> {
+        d.deserialize_string(DescrVisitor)
+    }
+}
+
+macro_rules! descr_name {
+    ($name:ident, $reader:ident, |$n:ident| $bytes:expr, |$de:ident| $call:expr) => {
+        // @unwind 3
+        // @bound descriptor given by name: a 3-character symbol (symbolic ASCII), one spelling (sym8 or sym32), one reader and one entry point per harness
+        // @desc the sym8 and the sym32 spelling of a symbolic descriptor are both read as exactly that name, by deserialize_identifier and by the peeking deserialize_ignored_any, through the slice and the io reader
+        harness!($name, |s| {
+            let $n = [s.u8() & 0x7f, s.u8() & 0x7f, s.u8() & 0x7f];
+            let want = Descr::Name(3, $n);
+            let bytes = $bytes;
+            descr_name!(@$reader bytes, d);
+            let $de = &mut d;
+            let a: Result<Descr, serde_amqp::Error> = $call;
+            assert!(matches!(a, Ok(x) if x == want), "[C05] descriptor name rejected or misread");
+            vcover!(s, $n[0] == b'a', "name starting with 'a'");
+            std::mem::forget((a, d));
+        });
+    };
+    (@slice $bytes:ident, $d:ident) => {
+        let mut $d = Deserializer::new(SliceReader::new(&$bytes));
+    };
+    (@io $bytes:ident, $d:ident) => {
+        let mut rd: &[u8] = &$bytes;
+        let mut $d = Deserializer::new(serde_amqp::read::IoReader::new(&mut rd));
+    };
+}
+descr_name!(c05_dec_descriptor_sym8_identifier, slice, |n| [0x00u8, SYM8, 3, n[0], n[1], n[2], 0x45], |de| de.deserialize_identifier(DescrVisitor));
+descr_name!(c05_dec_descriptor_sym32_identifier, slice, |n| [0x00u8, SYM32, 0, 0, 0, 3, n[0], n[1], n[2], 0x45], |de| de.deserialize_identifier(DescrVisitor));
+descr_name!(c05_dec_descriptor_sym8_peek, slice, |n| [0x00u8, SYM8, 3, n[0], n[1], n[2], 0x45], |de| de.deserialize_ignored_any(DescrVisitor));
+descr_name!(c05_dec_descriptor_sym32_peek, slice, |n| [0x00u8, SYM32, 0, 0, 0, 3, n[0], n[1], n[2], 0x45], |de| de.deserialize_ignored_any(DescrVisitor));
+descr_name!(c05_dec_descriptor_sym32_peek_io, io, |n| [0x00u8, SYM32, 0, 0, 0, 3, n[0], n[1], n[2], 0x45], |de| de.deserialize_ignored_any(DescrVisitor));
+
+macro_rules! descr_code {
+    ($name:ident, |$v:ident, $b:ident| $bytes:expr, $want:expr, |$de:ident| $call:expr) => {
+        // @unwind 3
+        // @bound descriptor given by code: every 64-bit value as ulong, every 8-bit value as smallulong, zero as ulong0; one spelling and one entry point per harness
+        // @desc the ulong0 / smallulong / ulong spellings of a numeric descriptor are read as that code
+        harness!($name, |s| {
+            let $v = s.u64();
+            let $b = $v.to_be_bytes();
+            let bytes = $bytes;
+            let mut d = Deserializer::new(SliceReader::new(&bytes));
+            let $de = &mut d;
+            let r: Result<Descr, serde_amqp::Error> = $call;
+            assert!(matches!(r, Ok(Descr::Code(x)) if x == $want), "[C05] descriptor code rejected or misread");
+            vcover!(s, $v == 0x24, "accepted's code");
+            std::mem::forget(r);
+        });
+    };
+}
+descr_code!(c05_dec_descriptor_ulong_identifier, |v, b| [0x00u8, ULONG, b[0], b[1], b[2], b[3], b[4], b[5], b[6], b[7], 0x45], v, |de| de.deserialize_identifier(DescrVisitor));
+descr_code!(c05_dec_descriptor_ulong_peek, |v, b| [0x00u8, ULONG, b[0], b[1], b[2], b[3], b[4], b[5], b[6], b[7], 0x45], v, |de| de.deserialize_ignored_any(DescrVisitor));
+descr_code!(c05_dec_descriptor_smallulong_identifier, |v, b| [0x00u8, SMALLULONG, b[7], 0x45], b[7] as u64, |de| de.deserialize_identifier(DescrVisitor));
+descr_code!(c05_dec_descriptor_smallulong_peek, |v, b| [0x00u8, SMALLULONG, b[7], 0x45], b[7] as u64, |de| de.deserialize_ignored_any(DescrVisitor));
+descr_code!(c05_dec_descriptor_ulong0_peek, |v, b| [0x00u8, ULONG0, b[7] & 0, 0x45], 0u64, |de| de.deserialize_ignored_any(DescrVisitor));
